@@ -65,7 +65,7 @@ def gen_poly(rng, labels, maxdeg=2, maxterms=4, coefs=(-3, -2, -1, 1, 2, 3), off
     return P
 
 
-SPECIAL_SHAPES = ["and", "sum_le_1", "unary", "or", "x_le_y", "knapsack", "knapsack", "and_image", "and_like"]
+SPECIAL_SHAPES = ["and", "sum_le_1", "unary", "or", "x_le_y", "knapsack", "knapsack", "and_image", "and_like", "gate_like", "gate_like"]
 
 
 def special_poly(rng, labels, shape):
@@ -89,6 +89,14 @@ def special_poly(rng, labels, shape):
     if shape == "and_like" and len(ls) >= 3:            # c1 a - c2 b c with c1 != c2
         c1, c2 = rng.choice([(2, 1), (1, 2), (3, 1), (-2, -1), (-1, -3)])
         return {(ls[0],): c1, (ls[1], ls[2]): -c2}, rng.choice(["eq", "eq", "le", "ge"])
+    if shape == "gate_like" and len(ls) >= 3:            # a gate identity z = G(x, y) or a look-alike with the product on the wrong pair
+        z, x, y = ls[:3]
+        forms = [{(z,): 1, (x,): -1, (y,): -1, (x, y): 1}, {(z,): 1, (x,): -1, (y,): -1, (z, x): 1},
+                 {(z,): 1, (): -1, (x, y): 1}, {(z,): 1, (): -1, (z, x): 1},
+                 {(z,): 1, (): -1, (x,): 1, (y,): 1, (x, y): -1}, {(z,): 1, (): -1, (x,): 1, (y,): 1, (z, y): -1},
+                 {(z,): 1, (x, y): -1}, {(z,): 1, (z, x): -1}]
+        sc = rng.choice([1, 1, -1, 2])
+        return {k: sc * v for k, v in rng.choice(forms).items()}, rng.choice(["eq", "eq", "eq", "ne", "le"])
     if shape == "knapsack" and len(ls) >= 2:             # weighted sum within a capacity (weights above 1, capacity above the term count)
         n = rng.randint(2, min(3, len(ls)))
         w = [rng.choice([1, 2, 3, 4]) for _ in range(n)]
